@@ -378,10 +378,14 @@ def wb_sub_map_aw(s):
     return max(1, s["aw"] + ((s["dw"] // s["g"]).bit_length() - 1))
 
 
-def build_wb_decoder(cfg):
-    """-> (decoder, [sub interfaces], plan in decoder-map (granule) addresses)."""
+def build_wb_decoder(cfg, ifaces=None, prefix="w"):
+    """-> (decoder, [sub interfaces], plan in decoder-map (granule) addresses). ``ifaces``: pre-built
+    subordinate interfaces with memory maps (dense, same data width and granularity)."""
     gbits = (cfg["dw"] // cfg["g"]).bit_length() - 1
-    maws = [wb_sub_map_aw(s) for s in cfg["subs"]]
+    if ifaces is None:
+        maws = [wb_sub_map_aw(s) for s in cfg["subs"]]
+    else:
+        maws = [f.memory_map.addr_width for f in ifaces]
     shuffle = bool(cfg.get("shuffle"))
     end, plan = plan_windows(cfg["al"], maws, cfg["subs"], shuffle)
     needed = max(ceil_log2(max(end, 1)), gbits)
@@ -393,14 +397,17 @@ def build_wb_decoder(cfg):
         aw = 0
     dec = wishbone.Decoder(addr_width=aw, data_width=cfg["dw"], granularity=cfg["g"],
                            features=cfg["feat"], alignment=cfg["al"])
-    ifaces = []
+    given, ifaces = ifaces, []
     for i, (s, (ps, pe)) in enumerate(zip(cfg["subs"], plan)):
-        iface = wishbone.Interface(addr_width=s["aw"], data_width=s["dw"], granularity=s["g"],
-                                   features=s["feat"], path=(f"sub{i}",))
-        iface.memory_map = MemoryMap(addr_width=wb_sub_map_aw(s), data_width=s["g"])
-        kw = {"sparse": s["sparse"]}
+        if given is not None:
+            iface = given[i]
+        else:
+            iface = wishbone.Interface(addr_width=s["aw"], data_width=s["dw"], granularity=s["g"],
+                                       features=s["feat"], path=(f"sub{i}",))
+            iface.memory_map = MemoryMap(addr_width=wb_sub_map_aw(s), data_width=s["g"])
+        kw = {"sparse": s.get("sparse", False)}
         if s["named"]:
-            kw["name"] = (f"w{i}",)
+            kw["name"] = (f"{prefix}{i}",)
         if s["mode"] == "align" and not shuffle:
             dec.align_to(s["k"])
         if s["mode"] == "slot" or shuffle:
